@@ -107,7 +107,7 @@ Qed.
 
 (** * Worker operations *)
 Lemma remove_sn_task_spec wk id rq wk' : remove_sn_task wk id rq = Ok wk' ->
-  w_id wk' = w_id wk /\ exists a p f, w_assign wk = Sn a p f /\ w_assign wk' = Sn (tid_remove id a) p (res_add f rq).
+  w_id wk' = w_id wk /\ exists a p f, w_assign wk = Sn a p f /\ w_assign wk' = Sn (tid_remove id a) p (res_add_cap f rq (w_res wk)).
 Proof.
   unfold remove_sn_task. destruct (w_assign wk) as [a p f|] eqn:E; [|discriminate].
   destruct (tid_mem id a); [|discriminate]. intros H; inversion H; subst. cbn. split; [reflexivity|]. exists a, p, f. auto.
